@@ -3,7 +3,7 @@
    contract); their verification against the app hash of EVERY height is checked on the
    implementation by the `ms` engine. *)
 From Coq Require Import List ZArith NArith Bool Permutation.
-From PM Require Import Base.Bytes Store.KV Store.MergeProofs Store.RootMulti Store.RootMultiProofs.
+From PM Require Import Base.Bytes Store.KV Store.MergeProofs Store.RootMulti Store.RootMultiProofs Store.QueryHistory.
 Import ListNotations.
 Local Open Scope Z_scope.
 
@@ -24,5 +24,39 @@ Theorem C14_pruned_or_future_returns_nothing ms name key h t : h <> 0 ->
   find (fun p => beqb (fst p) name) (ms_trees ms) = Some (name, t) -> vget (t_disk t) h = None ->
   ms_query ms name key h = QNoVersion.
 Proof. exact (query_pruned_or_future_returns_nothing ms name key h t). Qed.
+(* ---- over whole histories, any number of substores: once height h holds content c in a substore, then after ANY
+   sequence of writes, deletes, transient writes, pruning changes and commits a query at h answers with c's value or
+   with "no such version" (pruned) - never with data of another height (Store/QueryHistory.v) ---- *)
+Theorem C14_query_after_any_history h cs ops ms ms' name key : h <> 0 ->
+  all_frozen h cs (ms_trees ms) -> mrun ops ms = Some ms' ->
+  match find (fun p => beqb (fst p) name) cs with
+  | Some (_, c) => ms_query ms' name key h = QValue (aget c key) \/ ms_query ms' name key h = QNoVersion
+  | None => ms_query ms' name key h = QNoStore
+  end.
+Proof. exact (query_after_any_history h cs ops ms ms' name key). Qed.
+Theorem C14_frozen_forever h cs ops ms ms' : mrun ops ms = Some ms' -> all_frozen h cs (ms_trees ms) -> all_frozen h cs (ms_trees ms').
+Proof. exact (mrun_frozen h cs ops ms ms'). Qed.
+(* the premise holds for every height not above the substores' versions, with the contents on disk *)
+Theorem C14_frozen_premise h ts : (forall n t, In (n, t) ts -> h <= t_ver t) ->
+  all_frozen h (map (fun p => (fst p, match vget (t_disk (snd p)) h with Some c => c | None => [] end)) ts) ts.
+Proof. exact (all_frozen_intro h ts). Qed.
+(* a concrete history: two substores, pruning keeps one recent version; height 1 is answered with the value
+   committed at 1 while it is retained and with "no such version" once released, never with the later values *)
+Definition c14_a : bytes := [97]%N.  Definition c14_b : bytes := [98]%N.
+Definition c14_ms1 := mrun [MSet c14_a [1]%N [10]%N; MSet c14_b [2]%N [20]%N; MCommit]
+                           (ms_init [c14_a; c14_b] {| keep_recent := 1; keep_every := 0 |}).
+Example C14_ex_history : match c14_ms1 with
+  | Some ms1 =>
+    ms_query ms1 c14_a [1]%N 1 = QValue (Some [10]%N) /\
+    match mrun [MSet c14_a [1]%N [11]%N; MCommit] ms1 with
+    | Some ms2 => ms_query ms2 c14_a [1]%N 1 = QValue (Some [10]%N) /\ ms_query ms2 c14_a [1]%N 2 = QValue (Some [11]%N) /\
+      match mrun [MDelete c14_a [1]%N; MCommit] ms2 with
+      | Some ms3 => ms_query ms3 c14_a [1]%N 1 = QNoVersion /\ ms_query ms3 c14_a [1]%N 2 = QValue (Some [11]%N)
+                    /\ ms_query ms3 c14_a [1]%N 3 = QValue None
+      | None => False end
+    | None => False end
+  | None => False end.
+Proof. vm_compute. repeat split; reflexivity. Qed.
 Print Assumptions C14_query_reads_committed.
+Print Assumptions C14_query_after_any_history.
 Print Assumptions C14_later_commits_irrelevant.
